@@ -74,6 +74,13 @@ def base_doc(rng, profile, latlon_p=0.0, sqlite_p=0.15, pickle_p=0.06, fault_kin
     if "relist" in fault_kinds and rng.random() < 0.5:
         world = gen.relist(world, rng.randrange(1 << 30))
         faults["relist"] = True
+    if len(ops) >= 2:
+        # between two operations of the client: another matcher object works on the same map; the client makes a
+        # call the matcher refuses (expand for a trace that is no extension) and carries on
+        if rng.random() < 0.15:
+            faults["other_matcher_before"] = {str(rng.randrange(1, len(ops))): rng.randint(1, 8)}
+        if rng.random() < 0.15:
+            faults["refused_before"] = {str(rng.randrange(1, len(ops))): rng.choice(["prefix", "differs"])}
     d = {"kind": "A", "world": world, "trace": trace, "cfg": cfg, "ops": ops, "faults": faults,
          "backend": backend, "log": "ERROR"}
     if trace2 is not None and any(op.get("alt") for op in ops):
@@ -93,6 +100,7 @@ def session_sig(doc, sess, extra=""):
     cfg = doc["cfg"]
     kinds = "".join(o.kind[0] for o in sess.outcomes)
     fired = sorted(k for k, v in sess.simmap.fired.items() if v) if sess.simmap else []
+    fired += sorted(getattr(sess, "interfered", {}))
     last = None
     for o in sess.outcomes:
         if o.obs is not None:
@@ -120,6 +128,8 @@ def session_stats(sess, ctx=None):
         st["map_calls"] = sess.simmap.total_calls
     if sess.restarts:
         st["fired_restart"] = sess.restarts
+    for k, v in getattr(sess, "interfered", {}).items():
+        st["fired_" + k] = v
     from . import world_a as _wa
     if _wa.REJECTED_CALLS[0]:
         st["fired_rejected_call"] = _wa.REJECTED_CALLS[0]
